@@ -2,6 +2,7 @@
 CONSTANTS
   IDs = {"Chrome-120", "Firefox-120", "Randomized"}
   RandIDs = {"Randomized"}
+  Stalls = {{}, {"Chrome-120"}}
   Seeds = {1, 2, 3, 4, 5, 6}
   Canon = TRUE
   MaxSteps = 2
